@@ -172,6 +172,28 @@ def roundtrip_obs(rnd, nenums):
             ob = Ob(name, src, params, None, post, {'kind': 'switch-roundtrip', 'sum': 'enum'}, event_funcs={'mark'})
             ob.handles_abort = True
             obs.append(ob)
+        # the same value on its way through an optional / an error union of its own enum (`return My_Error.Oops` in a
+        # function returning `My_Error!T`): the variant must arrive as that variant of the enum on the right side
+        if si < 6:
+            for k, (vn, pay, _) in enumerate(vs):
+                build = '%s.%s' % (en.name, vn) + ('.(x)' if pay is not None else '')
+                params = [('scalar', pay.src())] if pay is not None else []
+                psig = 'x: %s' % pay.src() if pay is not None else ''
+                for wrap, wty, other in (('opt', '?%s' % en.name, 'nil => { mark(77); }'), ('err', '%s!u16' % en.name, 'u16 => { mark(78); }'),
+                                         ('ok', 'str!%s' % en.name, 'str => { mark(79); }')):
+                    name = 'rw_%s_%s_%s' % (en.name, vn, wrap)
+                    src = ('%s_mk :: (%s) -> %s { %s }\n%s :: (%s) { w := %s_mk(%s); switch u in w { %s => { switch v in u { %s } }, %s } }'
+                           % (name, psig, wty, build, name, psig, name, 'x' if pay is not None else '', en.name, arms, other))
+
+                    def wpost(ctx, xs, k=k, pay=pay):
+                        got = ctx.marks()
+                        if ctx.status != 'ret':
+                            return [('a value built as a declared variant never aborts the switch', z3.BoolVal(False))]
+                        exp = [k + 1] + ([ext64(xs[0], pay.signed())] if pay is not None else [])
+                        return [('a variant returned through an optional / error union of its enum is still that variant', marks_eq(got, exp))]
+                    ob = Ob(name, src, params, None, wpost, {'kind': 'switch-roundtrip-wrapped', 'sum': 'enum', 'through': wrap}, event_funcs={'mark'})
+                    ob.handles_abort = True
+                    obs.append(ob)
         # the same with only some variants named and a default arm (a shared tag then runs a wrong arm instead of crashing)
         named = [k for k in range(len(vs)) if k % 2 == 1] or [0]
         sub_arms = ', '.join('.%s => { mark(%d);%s }' % (vs[k][0], k + 1, payload_stmts(vs[k][1], 'v', vs[k][1] is not None)) for k in named) + ', _ => { mark(99); }'
